@@ -248,6 +248,45 @@ func (p *pathCtx) queryMode(extra *smt.Term, forceSMT bool) (smt.Result, map[str
 }
 
 func (p *pathCtx) smtQuery(extra *smt.Term) (smt.Result, map[string]uint64) {
+	r, m := p.smtQueryOn(extra)
+	if r == smt.Unknown {
+		// the primary solver gave up: ask the fallback solvers with the whole path condition
+		for _, name := range p.i.cfg.Fallback {
+			fs := p.i.fallbackSolver(name)
+			if fs == nil {
+				continue
+			}
+			fs.Reset()
+			for _, c := range p.pc {
+				fs.Assert(c)
+			}
+			fs.Assert(extra)
+			r2 := fs.Check()
+			p.i.stats.FallbackQueries++
+			if r2 == smt.Unknown {
+				continue
+			}
+			var m2 map[string]uint64
+			if r2 == smt.Sat {
+				var err error
+				m2, err = fs.Model()
+				if err != nil {
+					continue
+				}
+				for k, v := range p.model {
+					if _, ok := m2[k]; !ok {
+						m2[k] = v
+					}
+				}
+			}
+			p.i.stats.FallbackDecided++
+			return r2, m2
+		}
+	}
+	return r, m
+}
+
+func (p *pathCtx) smtQueryOn(extra *smt.Term) (smt.Result, map[string]uint64) {
 	s := p.sync()
 	s.Push()
 	s.Assert(extra)
